@@ -73,8 +73,14 @@ func (p *ECPoint) UnmarshalJSON(b []byte) error {
 	if err := json.Unmarshal(b, &aux); err != nil {
 		return err
 	}
-	p.X = aux.X.Int
-	p.Y = aux.Y.Int
+	p.X, p.Y = nil, nil
+	if aux.X != nil {
+		p.X = aux.X.Int
+	}
+	// MarshalJSON omits "y" for points without a Y coordinate (e.g. x25519).
+	if aux.Y != nil {
+		p.Y = aux.Y.Int
+	}
 	return nil
 }
 
